@@ -132,7 +132,7 @@ func (wk *Worker) close() {
 
 func newInterp(w *World, tt *TermTable, ex *Explorer, job *Job, funcs map[string]int) *Interp {
 	in := &Interp{w: w, tt: tt, ex: ex, globals: map[*ssa.Global]Ptr{}, funcsRun: funcs,
-		reach: map[string]bool{}, builders: map[*Val]*[]Piece{}, ioErrs: map[string]*ErrV{}, pools: map[*Val][]Val{}}
+		reach: map[string]bool{}, builders: map[*Val]*[]Piece{}, ioErrs: map[string]*ErrV{}, pools: map[*Val][]Val{}, pureDone: map[*ssa.Package]bool{}}
 	in.noIfConv = os.Getenv("VERIF_NO_IFCONV") != ""
 	in.stepBudget = job.StepBudget
 	if in.stepBudget == 0 {
@@ -172,6 +172,26 @@ func runPath(in *Interp, h *ssa.Function, args []int) (out pathEnd) {
 	in.globalWrites = 0
 	in.callFunction(h, []Val{intArgs(in, args)}, nil)
 	return pathEnd{kind: "ok"}
+}
+
+// runInit executes the body of a dependency's package initialiser (its own
+// imports' initialisers are skipped like all others).
+func (in *Interp) runInit(ini *ssa.Function) {
+	fr := &Frame{fn: ini, lib: false}
+	if n, ok := in.w.fnSlots[ini]; ok {
+		fr.slots = make([]Val, n)
+	} else {
+		fr.env = map[ssa.Value]Val{}
+	}
+	in.stack = append(in.stack, fr)
+	fr.block = ini.Blocks[0]
+	for {
+		_, done := in.runBlock(fr)
+		if done {
+			break
+		}
+	}
+	in.stack = in.stack[:len(in.stack)-1]
 }
 
 func renderEmits(emits []Emit, m map[string]uint64) []string {
